@@ -1,86 +1,370 @@
 // C34 (concurrent): MpmcRingBuffer delivers every successfully pushed element to exactly one
-// successful pop, per-producer order is preserved, occupancy never exceeds capacity.
-// Real code: MpmcRingBuffer<int32_t,CAP,POW2>::{try_push, try_emplace, try_push_batch, try_pop(T&),
-//            try_pop(), try_pop_into, emplaceImpl, size, ctor}.
-// Symbolic: operation kinds, the interleaving of all atomic operations.
+// successful pop, consumers see elements in the order the pushes claimed slots (observable part:
+// per-producer order and real-time order), occupancy never exceeds capacity, every element is
+// destroyed exactly once (also by ~MpmcRingBuffer with elements left).
+// Real code: MpmcRingBuffer<T,CAP,POW2>::{ctor, dtor, try_push(T&&), try_push(const T&), try_emplace,
+//            emplaceImpl, try_push_batch, try_pop(T&), try_pop(), try_pop_into, size, empty, full}.
+// Symbolic: the interleaving of all atomic operations (and, for the Elem payload, of the payload
+//           constructions), the start offset of head/tail, optional pre-fill, operation kinds
+//           (when VF_PUSH / VF_POP == 9), number of elements left to the destructor.
+//
+// -D parameters:
+//   VF_CAP, VF_POW2      template arguments
+//   VF_ELEM   0: int32_t payload, 1: lifetime-tracked payload (Tracked + per-tag ledger + scheduling
+//             points inside the payload constructors, so that a reader can run between a producer's
+//             claim and its payload write)
+//   push kinds: 0 try_push(T&&), 1 try_emplace, 2 try_push(const T&); pop kinds: 0 try_pop(T&),
+//   1 try_pop_into, 2 try_pop() (OpResult)
+//   VF_PUSH   0..2: the push of tag t uses kind (VF_PUSH + t) % 3 (fixed per call site); 9: symbolic choice per call
+//   VF_POP    0..2: pop number j of consumer c uses kind (VF_POP + c + j) % 3; 9: symbolic choice per call
+//   VF_A      producer A: number of pushes (tags 1..VF_A); VF_BATCH=1: one try_push_batch of VF_A items
+//   VF_B      producer B: number of pushes (tags 4..3+VF_B); 0: no producer B
+//   VF_P3     third producer: number of pushes (tags 7..6+VF_P3); 0: none
+//   VF_NCONS  consumers (1 or 2), VF_C pops each
+//   VF_PRE    1: main advances head/tail by a symbolic offset 0..CAP-1 and may pre-fill one element
+#include <new>
 #include <dispenso/mpmc_ring_buffer.h>
-#include "vf.h"
+#include "tracked.h"
+VfCounters g_cnt;
 
-using Ring = dispenso::MpmcRingBuffer<int32_t, VF_CAP, VF_POW2>;
-static Ring R;
+#ifndef VF_ELEM
+#define VF_ELEM 0
+#endif
+#ifndef VF_BATCH
+#define VF_BATCH 0
+#endif
+#ifndef VF_P3
+#define VF_P3 0
+#endif
+#ifndef VF_PRE
+#define VF_PRE 1
+#endif
+#ifndef VF_NCONS
+#define VF_NCONS 1
+#endif
 
-// ghost ledger, indexed by tag 1..6
-static uint8_t g_pushed[8];   // push reported success
-static uint8_t g_popped[8];   // number of pops that returned this tag
-static int32_t g_lastA[2];    // per consumer: last tag seen from producer A (tags 1..3, pushed in order)
+enum { kTags = 12, kPre = 10, kFill = 11, kProbe = 9 };  // tags: A 1..3, B 4..6, P3 7..8, main 9..11
+
+// ---------------------------------------------------------------- ghost ledger (indexed by tag)
+static uint8_t g_pushed[kTags + 1];   // push reported success
+static uint8_t g_popped[kTags + 1];   // number of pops that returned this tag
+static uint8_t g_start[kTags + 1];    // ghost clock when the push call started
+static uint8_t g_done[kTags + 1];     // ghost clock when the push call returned true (0: not yet)
+static uint8_t g_clk;
+static int32_t g_last[3][3];          // [consumer][producer]: last tag seen
+static int32_t g_prev[3];             // [consumer]: previously popped tag (0: none)
+
+#if VF_ELEM
+#define VF_CAPACITY (dispenso::MpmcRingBuffer<Tracked, VF_CAP, VF_POW2>::capacity())
+static int8_t g_alive[kTags + 1];     // value-carrying objects alive per tag
+static int32_t g_inring;              // payload objects currently alive inside the ring's slots
+struct Elem;
+static inline bool addrInRing(const void* p);
+struct Elem {
+  Tracked t;  // global construct/destroy counters, double-destroy check
+  bool proto = false;  // source object of a copying push: not an element itself
+  void makeProto() { proto = true; if (t.v >= 1 && t.v <= kTags) g_alive[t.v]--; }
+  bool inRing() const { return addrInRing(this); }
+  void born() {
+    if (t.v >= 1 && t.v <= kTags) {
+      g_alive[t.v]++;
+      vf_check(g_alive[t.v] == 1, "two live objects carry the same element");
+    }
+    if (inRing()) {
+      ++g_inring;
+      vf_check(g_inring <= (int32_t)VF_CAPACITY, "more than capacity() elements alive inside the buffer");
+    }
+  }
+  explicit Elem(int32_t x) noexcept : t(x) { born(); }
+  Elem(const Elem& o) noexcept : t((vf_sched_point(), o.t)) { born(); }
+  Elem(Elem&& o) noexcept : t((vf_sched_point(), o.t.v)) {
+    // the source gives up the element
+    if (o.t.v >= 1 && o.t.v <= kTags) g_alive[o.t.v]--;
+    o.t.v = -7;
+    born();
+  }
+  Elem& operator=(Elem&& o) noexcept {
+    vf_sched_point();
+    if (t.v >= 1 && t.v <= kTags) g_alive[t.v]--;
+    t.v = o.t.v;
+    o.t.v = -7;
+    return *this;
+  }
+  ~Elem() {
+    if (!proto && t.v >= 1 && t.v <= kTags) {
+      g_alive[t.v]--;
+      vf_check(g_alive[t.v] == 0, "an element is destroyed twice");
+    }
+    if (inRing()) --g_inring;
+  }
+  int32_t tag() const { return t.v; }
+};
+static inline int32_t tagOf(const Elem& e) { return e.t.v; }
+#else
+using Elem = int32_t;
+static inline int32_t tagOf(const Elem& e) { return e; }
+#endif
+
+using Ring = dispenso::MpmcRingBuffer<Elem, VF_CAP, VF_POW2>;
+// typed storage with manual lifetime (the analysis keeps the object's struct type)
+union Holder {
+  Ring r;
+  Holder() {}
+  ~Holder() {}
+};
+static Holder g_holder;
+static inline Ring& ring() { return g_holder.r; }
+#if VF_ELEM
+static inline bool addrInRing(const void* q) {
+  uintptr_t p = reinterpret_cast<uintptr_t>(q), s = reinterpret_cast<uintptr_t>(&g_holder);
+  return p >= s && p < s + sizeof(g_holder);
+}
+#endif
+
+static inline int producerOf(int32_t tag) { return tag <= 3 ? 0 : tag <= 6 ? 1 : 2; }
 
 static void note_pop(int consumer, int32_t tag) {
   VfAtomic a;
-  vf_check(tag >= 1 && tag <= 6, "pop returned a value that was never pushed");
-  if (tag >= 1 && tag <= 6) {
+  vf_check(tag >= 1 && tag <= kTags, "pop returned a value that was never pushed");
+  if (tag >= 1 && tag <= kTags) {
+    vf_check(g_start[tag] != 0, "pop returned an element whose push has not even started");
     g_popped[tag]++;
     vf_check(g_popped[tag] <= 1, "the same element was delivered to two pops");
-    if (tag <= 3) {
-      vf_check(tag > g_lastA[consumer], "a consumer saw one producer's elements out of push order");
-      g_lastA[consumer] = tag;
+    if (tag <= 8) {
+      int p = producerOf(tag);
+      vf_check(tag > g_last[consumer][p], "a consumer saw one producer's elements out of push order");
+      g_last[consumer][p] = tag;
     }
+    int32_t prev = g_prev[consumer];
+    if (prev != 0) {
+      // FIFO in real-time order: if push(tag) had returned before push(prev) started, tag sits at a
+      // lower position than prev and this consumer (whose claims are increasing) cannot see it later
+      vf_check(!(g_done[tag] != 0 && g_done[tag] < g_start[prev]),
+               "a consumer popped y after x although push(y) completed before push(x) started");
+    }
+    g_prev[consumer] = tag;
   }
 }
-static void note_push(int32_t tag, bool ok) {
-  if (ok) { VfAtomic a; g_pushed[tag] = 1; }
+static inline void push_begin(int32_t tag) { g_start[tag] = ++g_clk; }
+static inline void push_end(int32_t tag, bool ok) {
+  if (ok) { g_pushed[tag] = 1; g_done[tag] = ++g_clk; }
 }
 
-VF_NOINLINE static bool k_push(int32_t tag) {
-  if (vf_nondet_bool()) return R.try_push(tag);
-  return R.try_emplace(tag);
+static inline bool push_kind(int32_t tag, uint32_t kind) {
+  if (kind == 0) return ring().try_push(Elem(tag));
+  if (kind == 1) return ring().try_emplace(tag);
+#if VF_ELEM
+  Elem src(tag);
+  src.makeProto();
+  const Elem& e = src;
+#else
+  const Elem e = tag;
+#endif
+  return ring().try_push(e);
 }
-VF_NOINLINE static bool k_pop(int32_t* out) {
-  uint32_t k = vf_range_u32(0, 2);
-  if (k == 0) return R.try_pop(*out);
-  if (k == 1) return R.try_pop_into(out);
-  auto r = R.try_pop();
-  if (r) { *out = r.value(); return true; }
+static inline bool do_push(int32_t tag) {
+  push_begin(tag);
+#if VF_PUSH == 9
+  bool ok = push_kind(tag, vf_range_u32(0, 2));
+#else
+  bool ok = push_kind(tag, (VF_PUSH + tag) % 3);  // compile-time constant per call site
+#endif
+  push_end(tag, ok);
+  return ok;
+}
+static inline bool pop_kind(int32_t* out, uint32_t kind) {
+  if (kind == 0) {
+    Elem e(0);
+    bool ok = ring().try_pop(e);
+    if (ok) *out = tagOf(e);
+    return ok;
+  }
+  if (kind == 1) {
+    alignas(Elem) char buf[sizeof(Elem)];
+    Elem* p = reinterpret_cast<Elem*>(buf);
+    bool ok = ring().try_pop_into(p);
+    if (ok) { *out = tagOf(*p); p->~Elem(); }
+    return ok;
+  }
+  auto r = ring().try_pop();
+  if (r) { *out = tagOf(r.value()); return true; }
   return false;
 }
-
-static void producerA(void*) {  // tags 1,2,(3): single pushes or one batch
-#if VF_BATCH
-  int32_t items[2] = {1, 2};
-  size_t n = R.try_push_batch(items, 2);
-  vf_check(n <= 2, "batch pushed more than requested");
-  note_push(1, n >= 1);
-  note_push(2, n >= 2);
+static inline bool do_pop(int32_t* out, int j) {
+#if VF_POP == 9
+  return pop_kind(out, vf_range_u32(0, 2));
 #else
-  note_push(1, k_push(1));
-  note_push(2, k_push(2));
+  return pop_kind(out, (VF_POP + j) % 3);  // compile-time constant per call site
 #endif
 }
-static void producerB(void*) { note_push(4, k_push(4)); }
+
+// ---------------------------------------------------------------- threads
+static void producerA(void*) {
+#if VF_BATCH
+  Elem items[VF_A] = {Elem(1)
+#if VF_A >= 2
+    , Elem(2)
+#endif
+#if VF_A >= 3
+    , Elem(3)
+#endif
+  };
+#pragma unroll
+  for (int t = 1; t <= VF_A; ++t) push_begin(t);
+  size_t n = ring().try_push_batch(items, VF_A);
+  vf_check(n <= VF_A, "batch pushed more than requested");
+#pragma unroll
+  for (int t = 1; t <= VF_A; ++t) push_end(t, (size_t)t <= n);
+#else
+  do_push(1);
+#if VF_A >= 2
+  do_push(2);
+#endif
+#if VF_A >= 3
+  do_push(3);
+#endif
+#endif
+}
+#if VF_B
+static void producerB(void*) {
+  do_push(4);
+#if VF_B >= 2
+  do_push(5);
+#endif
+#if VF_B >= 3
+  do_push(6);
+#endif
+}
+#endif
+#if VF_P3
+static void producerC(void*) {
+  do_push(7);
+#if VF_P3 >= 2
+  do_push(8);
+#endif
+}
+#endif
 static void consumer0(void*) {
   int32_t v = 0;
-  if (k_pop(&v)) note_pop(0, v);
+  if (do_pop(&v, 0)) note_pop(0, v);
+#if VF_C >= 2
   v = 0;
-  if (k_pop(&v)) note_pop(0, v);
+  if (do_pop(&v, 0 + 1)) note_pop(0, v);
+#endif
+#if VF_C >= 3
+  v = 0;
+  if (do_pop(&v, 0 + 2)) note_pop(0, v);
+#endif
+}
+#if VF_NCONS >= 2
+static void consumer1(void*) {
+  int32_t v = 0;
+  if (do_pop(&v, 1)) note_pop(1, v);
+#if VF_C >= 2
+  v = 0;
+  if (do_pop(&v, 1 + 1)) note_pop(1, v);
+#endif
+#if VF_C >= 3
+  v = 0;
+  if (do_pop(&v, 1 + 2)) note_pop(1, v);
+#endif
+}
+#endif
+
+// The quiescent phases of the main thread (before the first spawn, after the join) are reached
+// through function pointers: the cbmc-seq engine then runs them as plain code without preemption
+// points (no other thread exists / is unfinished there), which keeps the main thread's step
+// machine small.
+static void phase_pre(uint32_t) {
+  Ring* r = new (&g_holder.r) Ring();
+#if VF_PRE
+  // quiescent prefix: symbolic start offset of head/tail (wrap-around happens at different points
+  // of the threads' histories), optionally one element already inside
+  uint32_t off = vf_range_u32(0, VF_CAP - 1);
+#pragma unroll
+  for (uint32_t i = 0; i + 1 < VF_CAP; ++i) {
+    if (i >= off) break;
+    bool ok = r->try_emplace((int32_t)kPre);
+    int32_t v = 0;
+    bool ok2 = ok && pop_kind(&v, 0);
+    vf_check(ok2 && v == kPre, "quiescent push then pop on an empty buffer both succeed");
+  }
+  if (vf_nondet_bool()) {
+    push_begin(kFill);
+    bool ok = r->try_emplace((int32_t)kFill);
+    vf_check(ok, "quiescent push into an empty buffer succeeds");
+    push_end(kFill, ok);
+  }
+#endif
 }
 
-extern "C" void vf_main() {
-  vf_spawn(producerA, nullptr);
-  vf_spawn(producerB, nullptr);
-  vf_spawn(consumer0, nullptr);
-  vf_join_all();
-  if (vf_any_stuck()) return;
-  // quiescent: drain
-  vf_check(R.size() <= Ring::capacity(), "buffer holds more than capacity() elements");
+static void phase_post(uint64_t) {
+  Ring* r = &ring();
+  const size_t cap = Ring::capacity();
   size_t expect = 0;
-  for (int t = 1; t <= 6; ++t) expect += (g_pushed[t] && !g_popped[t]) ? 1 : 0;
-  vf_check(R.size() == expect, "quiescent size() differs from pushed-but-not-popped count");
-  for (int i = 0; i < 3; ++i) {
-    int32_t v = 0;
-    bool ok = R.try_pop(v);
-    vf_check(ok == (expect > 0), "quiescent pop succeeds iff the buffer is non-empty");
-    if (ok) { note_pop(1, v); --expect; }
+#pragma unroll
+  for (int t = 1; t <= kTags; ++t) expect += (g_pushed[t] && !g_popped[t]) ? 1 : 0;
+  vf_check(r->size() <= cap, "buffer holds more than capacity() elements");
+  vf_check(r->size() == expect, "quiescent size() differs from pushed-but-not-popped count");
+  vf_check(r->empty() == (expect == 0) && r->full() == (expect >= cap), "quiescent empty()/full() agree with the ledger");
+#if VF_ELEM
+  vf_check(g_inring == (int32_t)expect && g_cnt.live == (int32_t)expect, "live payload objects == elements in the buffer");
+#endif
+  {
+    push_begin(kProbe);
+    bool ok = r->try_emplace((int32_t)kProbe);
+    vf_check(ok == (expect < cap), "quiescent push succeeds iff the buffer is not full");
+    push_end(kProbe, ok);
+    if (ok) ++expect;
   }
-  for (int t = 1; t <= 6; ++t) {
+  // drain (all, or a symbolic number when the destructor is to find elements)
+#if VF_ELEM
+  uint32_t drain = vf_range_u32(0, VF_DRAIN);
+#else
+  uint32_t drain = VF_DRAIN;
+#endif
+#pragma unroll
+  for (uint32_t i = 0; i < VF_DRAIN; ++i) {
+    if (i >= drain) break;
+    int32_t v = 0;
+    bool ok = pop_kind(&v, 0);
+    vf_check(ok == (expect > 0), "quiescent pop succeeds iff the buffer is non-empty");
+    if (ok) { note_pop(2, v); --expect; }
+  }
+#if VF_ELEM
+  r->~Ring();
+  vf_check(g_cnt.live == 0 && g_cnt.ctor == g_cnt.dtor && g_inring == 0,
+           "every payload object is destroyed exactly once (destructor destroys what is left)");
+#pragma unroll
+  for (int t = 1; t <= kTags; ++t) {
+    vf_check(g_alive[t] == 0, "an element outlives the buffer");
+    vf_check(g_popped[t] <= g_pushed[t], "an element was popped that no push delivered");
+  }
+#else
+  vf_check(expect == 0, "drain empties the buffer");
+#pragma unroll
+  for (int t = 1; t <= kTags; ++t) {
     vf_check(g_popped[t] == g_pushed[t], "every successfully pushed element is popped exactly once (and nothing else is)");
   }
+#endif
+}
+void (*g_phase_pre)(uint32_t) = phase_pre;
+void (*g_phase_post)(uint64_t) = phase_post;
+
+extern "C" void vf_main() {
+  g_phase_pre(0);
+  vf_spawn(producerA, nullptr);
+#if VF_B
+  vf_spawn(producerB, nullptr);
+#endif
+#if VF_P3
+  vf_spawn(producerC, nullptr);
+#endif
+  vf_spawn(consumer0, nullptr);
+#if VF_NCONS >= 2
+  vf_spawn(consumer1, nullptr);
+#endif
+  vf_join_all();
+  if (vf_any_stuck()) return;
+  g_phase_post(0);
 }
